@@ -151,11 +151,79 @@ def repeat_scenario(ctx, rng):
     ctx.case("repeat_same_key", key=hx(key), sample={"steps": [s_[0] + ":" + s_[1] for s_ in res["steps"]]})
 
 
+def concurrent_scenario(ctx, rng, n_dev, stall_first):
+    """several units, each with its own credentials and its own client object in ONE process, handshaking and exchanging
+    data AT THE SAME TIME, every reply arriving in several TCP segments that interleave across the connections; optionally
+    one unit first stalls in the middle of a handshake reply (the client times out and drops that connection).  Nothing a
+    connection received may influence another connection or a later one: every genuine handshake succeeds, every data
+    exchange is accepted by its device."""
+    import asyncio
+    devs, creds = [], []
+    for i in range(n_dev):
+        token, key = rb(rng, 64), rb(rng, 32)
+        d = simdev.SimDevice(version=3, device_id=100 + i, token=token, key=key, delay=0.05 + 0.013 * i)
+        devs.append(d)
+        creds.append((token, key))
+    res = {"steps": []}
+    frame = GetStateCommand().tobytes()
+
+    def seg_script(k):
+        # every reply in three segments, 30 ms apart; the cuts differ per device so that the arrivals interleave
+        return [("segments", [3 + k, 40 + 7 * k], None, 0.03) for _ in range(12)]
+
+    async def scenario(loop, net):
+        acs = []
+        for i, d in enumerate(devs):
+            net.add_tcp(f"1.2.3.{10 + i}", 6444, d)
+            acs.append(AC(ip=f"1.2.3.{10 + i}", port=6444, device_id=100 + i))
+
+        async def guarded(name, coro):
+            try:
+                await coro
+                return (name, "ok")
+            except Exception as e:  # noqa
+                return (name, lanimpl.canon_exc(e))
+        if stall_first:
+            # unit 0 sends only the first 30 bytes of its handshake reply, then nothing: the client gives up
+            def half(d, tr, info):
+                reply = d._proper_reply(d.conns[tr.cid], info)
+                tr.deliver(0.05, reply[:30])
+            devs[0].script = [("custom", half), "silent", "silent"]
+            r = await guarded("stalled-authenticate", acs[0].authenticate(*creds[0]))
+            res["stalled"] = r[1]
+        for k, d in enumerate(devs):
+            d.script = seg_script(k)
+        marks = [len(d.log) for d in devs]
+        res["steps"] += await asyncio.gather(*[guarded(f"authenticate-{i}", acs[i].authenticate(*creds[i])) for i in range(n_dev)])
+        res["steps"] += await asyncio.gather(*[guarded(f"send-{i}", lan_of(acs[i]).send(frame)) for i in range(n_dev)])
+        res["steps"] += await asyncio.gather(*[guarded(f"send2-{i}", lan_of(acs[i]).send(frame)) for i in range(n_dev)])
+        res["accepted"] = [all(e.get("tag_ok") for e in d.log[m:] if e["kind"] == "data") and
+                           sum(1 for e in d.log[m:] if e["kind"] == "data") >= 2 for d, m in zip(devs, marks)]
+    try:
+        vloop.run(scenario)
+    except Exception as e:  # noqa
+        res["steps"].append(("outer", lanimpl.canon_exc(e)))
+    bad = [s_ for s_ in res["steps"] if s_[1] != "ok"]
+    inp = {"devices": n_dev, "stall_first": stall_first, "keys": [hx(k)[:16] for _t, k in creds]}
+    if stall_first and res.get("stalled") not in ("err:auth", "err:timeout"):
+        bad.append(("stalled-authenticate", res.get("stalled")))
+    if bad or not all(res.get("accepted", [False])):
+        ctx.violate("concurrent_objects", inp, {"failed": [list(b) for b in bad], "accepted": res.get("accepted")},
+                    "every genuine handshake succeeds and every data exchange is accepted by its own device",
+                    "connections of one process influence each other: " + (bad[0][0] if bad else "data not accepted"))
+    ctx.count(f"concurrent_objects:{n_dev}:{int(stall_first)}")
+    ctx.case("concurrent_objects", key=(n_dev, stall_first, hx(creds[0][1])), sample={"steps": [a + ":" + b for a, b in res["steps"]][:6]})
+
+
 def run(ctx):
     rng = ctx.rng
     if not ctx.driver:
         return
     thorough = ctx.tier == "thorough"
+    for n_dev in (2, 3):
+        for stall in (False, True):
+            for _ in range(2 if not thorough else 15):
+                concurrent_scenario(ctx, rng, n_dev, stall)
     # genuine, bytes and hex-string credential forms, fresh and re-authentication
     for hexform in (False, True):
         for pre in (False, True):
